@@ -52,6 +52,7 @@ type srcDef struct {
 	toks  []tok
 	mode  int
 	build func(d *srcDef) dbc.Def // expected definition, reads d.toks[i].pos
+	tags  []string                // generator features counted in the evidence (COV lines)
 }
 
 func (d *srcDef) add(kind tokKind, text string) int {
@@ -89,14 +90,18 @@ var dispatching = map[string]bool{"BA_DEF_": true, "BA_DEF_DEF_": true, "BA_": t
 	"SIG_VALTYPE_": true, "VAL_": true, "VAL_TABLE_": true, "VERSION": true}
 
 type attrInfo struct {
-	typ   string
-	enums []string
+	typ     string
+	enums   []string
+	enumSrc []string // the literals (with quotes) that denote enums
 }
 
 type gen struct {
-	r     *rand.Rand
-	attrs map[string]*attrInfo // first BA_DEF_ of each name
-	names []string             // attribute names defined so far
+	r       *rand.Rand
+	attrs   map[string]*attrInfo // first BA_DEF_ of each name
+	names   []string             // attribute names defined so far
+	pool    []string             // identifiers used so far in this file (source of near-colliding names)
+	pending []*srcDef            // definitions that must follow the one just generated (enum probes)
+	nearRef bool                 // pickAttr returned a name that nearly collides with a defined one
 }
 
 const identFirst = "ABCDEFGHIJKLMNOPQRSTUVWXYZabcdefghijklmnopqrstuvwxyz_"
@@ -124,7 +129,90 @@ func isKeyword(s string) bool {
 	return false
 }
 
+func validIdent(s string) bool {
+	if len(s) == 0 || len(s) > 128 || strings.IndexByte(identFirst, s[0]) < 0 {
+		return false
+	}
+	for i := 1; i < len(s); i++ {
+		if strings.IndexByte(identRest, s[i]) < 0 {
+			return false
+		}
+	}
+	return !isKeyword(s) && !strings.HasPrefix(s, "DUMMY_NODE_VECTOR")
+}
+
+func swapCase(c byte) byte {
+	switch {
+	case 'a' <= c && c <= 'z':
+		return c - 32
+	case 'A' <= c && c <= 'Z':
+		return c + 32
+	}
+	return c
+}
+
+// a NEAR-COLLIDING variant of an identifier: another capitalization (all upper, all lower, all
+// swapped, one letter swapped), one character replaced, a character appended / prepended / dropped at
+// either end (prefix and suffix variants), or the identifier itself. Falls back to s when the result
+// would be no identifier (or a keyword).
+func (g *gen) variant(s string) string {
+	b := []byte(s)
+	var v string
+	switch g.r.Intn(12) {
+	case 0, 1:
+		v = strings.ToUpper(s)
+	case 2, 3:
+		v = strings.ToLower(s)
+	case 4:
+		for i := range b {
+			b[i] = swapCase(b[i])
+		}
+		v = string(b)
+	case 5, 6:
+		i := g.r.Intn(len(b))
+		for k := 0; k < len(b) && swapCase(b[i]) == b[i]; k++ {
+			i = (i + 1) % len(b)
+		}
+		b[i] = swapCase(b[i])
+		v = string(b)
+	case 7:
+		i := g.r.Intn(len(b))
+		b[i] = identRest[g.r.Intn(len(identRest))]
+		v = string(b)
+	case 8:
+		v = s + string(identRest[g.r.Intn(len(identRest))])
+	case 9:
+		v = s[:len(s)-1]
+	case 10:
+		if g.r.Intn(2) == 0 {
+			v = string(identFirst[g.r.Intn(len(identFirst))]) + s
+		} else {
+			v = s[1:]
+		}
+	default:
+		v = s
+	}
+	if !validIdent(v) {
+		return s
+	}
+	return v
+}
+
+// an identifier: fresh, or (one in six once the file has some) a near-colliding variant of one used before
 func (g *gen) genIdent() string {
+	var s string
+	if len(g.pool) > 0 && g.r.Intn(6) == 0 {
+		s = g.variant(g.pool[g.r.Intn(len(g.pool))])
+	} else {
+		s = g.freshIdent()
+	}
+	if len(g.pool) < 64 {
+		g.pool = append(g.pool, s)
+	}
+	return s
+}
+
+func (g *gen) freshIdent() string {
 	for {
 		n := g.identLen()
 		b := make([]byte, n)
@@ -250,7 +338,11 @@ func (g *gen) genFloat() (string, float64) {
 
 const strPunct = ";:,|@()[]+-/%$#!?*'`{}<>=~^&."
 
-var utf8Samples = []string{"é", "ß", "Ω", "µ", "°", "€", "日本", "𝄞", "ñ", " ", "�", "Ж"}
+// multi-byte characters of strings: 2, 3 and 4 byte encodings from several blocks; the last ones are
+// runes whose LOW BYTE is NUL, LF, a quote, a backslash, a letter, a quote again (U+0100 U+010A U+0122
+// U+015C U+0141 U+2022 U+1F622): a reader that truncates or re-encodes runes meets the string syntax
+var utf8Samples = []string{"é", "ß", "Ω", "µ", "°", "€", "日本", "𝄞", "ñ", " ", "�", "Ж", "\u2013", "\u00fc", "\u05d0", "\ud55c", "\U0001f600",
+	"\u0100", "\u010a", "\u0122", "\u015c", "\u0141", "\u2022", "\U0001f622"}
 
 // string literal: returns (source text with quotes, denoted value)
 func (g *gen) genString() (string, string) {
@@ -733,9 +825,13 @@ func (g *gen) defAttribute() *srcDef {
 		a.ObjectType = dbc.ObjectTypeEnvironmentVariable
 	}
 	var name string
-	if len(g.names) > 0 && g.r.Intn(6) == 0 {
+	switch {
+	case len(g.names) > 0 && g.r.Intn(6) == 0:
 		name = g.names[g.r.Intn(len(g.names))] // a second BA_DEF_ of the same name: the first one types the values
-	} else {
+	case len(g.names) > 0 && g.r.Intn(4) == 0:
+		name = g.variant(g.names[g.r.Intn(len(g.names))]) // a name that nearly collides with an earlier one (own type)
+		d.tags = append(d.tags, "attr-definition-near-collision")
+	default:
 		name = g.attrName()
 	}
 	d.str(`"`+name+`"`, true)
@@ -770,15 +866,24 @@ func (g *gen) defAttribute() *srcDef {
 	case 4:
 		info.typ = "ENUM"
 		d.mandIdent("ENUM")
+		// 1..4 (one in four: 1..10) values in generation order (= no particular order), duplicates allowed
 		n := 1 + g.r.Intn(4)
+		if g.r.Intn(4) == 0 {
+			n = 1 + g.r.Intn(10)
+		}
 		for i := 0; i < n; i++ {
 			if i > 0 {
 				d.punct(",", true)
 			}
 			s, v := g.genString()
+			if i > 0 && g.r.Intn(6) == 0 {
+				k := g.r.Intn(i)
+				s, v = info.enumSrc[k], info.enums[k]
+			}
 			d.str(s, true)
 			a.EnumValues = append(a.EnumValues, v)
 			info.enums = append(info.enums, v)
+			info.enumSrc = append(info.enumSrc, s)
 		}
 	}
 	a.Type = dbc.AttributeValueType(info.typ)
@@ -786,6 +891,12 @@ func (g *gen) defAttribute() *srcDef {
 	if _, ok := g.attrs[name]; !ok {
 		g.attrs[name] = info
 		g.names = append(g.names, name)
+		if info.typ == "ENUM" && g.r.Intn(3) == 0 {
+			// enum probe: the definition is followed by one BA_DEF_DEF_ / BA_ per declared value, given by NAME
+			for i := range info.enums {
+				g.pending = append(g.pending, g.defEnumByName(name, info, i))
+			}
+		}
 	}
 	d.build = func(d *srcDef) dbc.Def { a.Pos = d.toks[0].pos; return a }
 	return d
@@ -807,18 +918,59 @@ func (g *gen) attrValue(d *srcDef, info *attrInfo) (int64, float64, string) {
 		d.str(s, true)
 		return 0, 0, v
 	default:
-		if g.r.Intn(2) == 0 {
-			i := g.r.Intn(len(info.enums))
+		i := g.r.Intn(len(info.enums))
+		switch g.r.Intn(3) {
+		case 0: // by index
 			d.num(strconv.Itoa(i), numUint, true)
 			return 0, 0, info.enums[i]
+		case 1: // by the name of a declared value
+			d.tags = append(d.tags, "enum-value-by-name")
+			d.str(info.enumSrc[i], true)
+			return 0, 0, info.enums[i]
 		}
-		s, v := g.genString()
+		s, v := g.genString() // any string is accepted
 		d.str(s, true)
 		return 0, 0, v
 	}
 }
 
+// BA_DEF_DEF_ "name" "<value i>"; or BA_ "name" [object] "<value i>";
+func (g *gen) defEnumByName(name string, info *attrInfo, i int) *srcDef {
+	if g.r.Intn(2) == 0 {
+		d := &srcDef{kind: "attrdef", tags: []string{"enum-probe-by-name"}}
+		d.ident("BA_DEF_DEF_")
+		d.str(`"`+name+`"`, false)
+		d.str(info.enumSrc[i], true)
+		d.punct(";", true)
+		a := &dbc.AttributeDefaultValueDef{AttributeName: dbc.Identifier(name), DefaultStringValue: info.enums[i]}
+		d.build = func(d *srcDef) dbc.Def { a.Pos = d.toks[0].pos; return a }
+		return d
+	}
+	d := &srcDef{kind: "attrval", tags: []string{"enum-probe-by-name"}}
+	d.ident("BA_")
+	d.str(`"`+name+`"`, false)
+	o := g.objectRef(d, true)
+	d.str(info.enumSrc[i], true)
+	d.punct(";", true)
+	a := &dbc.AttributeValueForObjectDef{AttributeName: dbc.Identifier(name), ObjectType: o.ot, MessageID: o.id,
+		SignalName: dbc.Identifier(o.sig), NodeName: dbc.Identifier(o.node), EnvironmentVariableName: dbc.Identifier(o.ev),
+		StringValue: info.enums[i]}
+	d.build = func(d *srcDef) dbc.Def { a.Pos = d.toks[0].pos; return a }
+	return d
+}
+
 func (g *gen) pickAttr() (string, *attrInfo) {
+	if len(g.names) > 0 && g.r.Intn(6) == 0 {
+		// a name that matches no BA_DEF_ exactly but nearly collides with one (or with two, when a variant of
+		// that name is defined too): another capitalization, one character more / less / different
+		for k := 0; k < 4; k++ {
+			n := g.variant(g.names[g.r.Intn(len(g.names))])
+			if _, ok := g.attrs[n]; !ok {
+				g.nearRef = true
+				return n, nil
+			}
+		}
+	}
 	if len(g.names) == 0 || g.r.Intn(8) == 0 {
 		for {
 			n := g.attrName()
@@ -834,7 +986,11 @@ func (g *gen) pickAttr() (string, *attrInfo) {
 func (g *gen) defAttributeDefault() *srcDef {
 	d := &srcDef{kind: "attrdef"}
 	d.ident("BA_DEF_DEF_")
+	g.nearRef = false
 	name, info := g.pickAttr()
+	if g.nearRef {
+		d.tags = append(d.tags, "attr-reference-near-collision")
+	}
 	d.str(`"`+name+`"`, info != nil && info.typ != "STRING" && info.typ != "ENUM")
 	a := &dbc.AttributeDefaultValueDef{AttributeName: dbc.Identifier(name)}
 	if info != nil {
@@ -848,7 +1004,11 @@ func (g *gen) defAttributeDefault() *srcDef {
 func (g *gen) defAttributeValue() *srcDef {
 	d := &srcDef{kind: "attrval"}
 	d.ident("BA_")
+	g.nearRef = false
 	name, info := g.pickAttr()
+	if g.nearRef {
+		d.tags = append(d.tags, "attr-reference-near-collision")
+	}
 	d.str(`"`+name+`"`, false)
 	o := g.objectRef(d, info != nil)
 	if info == nil {
@@ -1121,15 +1281,20 @@ type genFile struct {
 
 func (g *gen) genFile(maxDefs int) *genFile {
 	g.attrs = map[string]*attrInfo{}
-	g.names = nil
+	g.names, g.pool, g.pending = nil, nil, nil
 	n := g.r.Intn(maxDefs + 1)
 	if g.r.Intn(30) == 0 {
 		n = 0
 	}
 	f := &genFile{}
 	prev := ""
-	for i := 0; i < n; i++ {
-		d := g.genDef(prev)
+	for i := 0; i < n || (len(g.pending) > 0 && n > 0); i++ {
+		var d *srcDef
+		if len(g.pending) > 0 {
+			d, g.pending = g.pending[0], g.pending[1:]
+		} else {
+			d = g.genDef(prev)
+		}
 		prev = d.kind
 		f.defs = append(f.defs, d)
 	}
